@@ -298,6 +298,11 @@ func fbb.(*Message).SetSubject(m, str) ()
   call mime.(WordEncoder).Encode requires converted-subject: streq($1, DefaultCharset) && same($2, gCharsetName)
   call mime.(WordEncoder).Encode set gEncName := $r0
   call fbb.(Header).Set requires subject-header: $1 == "Subject" && same($2, gEncName)
+  # C09: the accessor returns what was set and the header survives serialisation.  A stored value with
+  # surrounding whitespace does not (Header.Write and the header parser trim it), and one that looks
+  # like an encoded-word is decoded by the accessor.  Nothing is known here about what the word encoder
+  # returns for such subjects - it returns pure ASCII as it is.  (KNOWN FINDING)
+  call fbb.(Header).Set requires stored-subject-survives-the-header-format [C09]: len(gEncName) == 0 || (gEncName[0] != ' ' && gEncName[0] != '\t' && gEncName[len(gEncName) - 1] != ' ' && gEncName[len(gEncName) - 1] != '\t')
 
 func fbb.(*Message).AddTo(m, addr) ()
   props C09
@@ -635,13 +640,17 @@ ghost var gReadDone bool
 ghost var gHS handshakeData
 
 func fbb.(*Session).handshake(s, rw) (err)
-  props C03 C05
+  props C03 C05 C01
   requires sess: SessOK(s) && rw != nil && len(s.localFW) >= 1
   call fbb.(*Session).readHandshake set gReadDone := true
   call fbb.(*Session).readHandshake set gHS := $r0
   call fbb.(*Session).sendHandshake#0 requires master-greets-first [C05]: s.master && !gReadDone && $2 == ""
   call fbb.(*Session).sendHandshake#1 requires answer-after-reading [C05]: !s.master && gReadDone && same($2, gHS.SecureChallenge)
   call fmt.Fprintf requires motd [C05]: s.master && !gReadDone && $1 == "%s\r" && len($2) == 1
+  # C01 quantifies over MOTD lines: a banner line that the remote's handshake reader takes for the
+  # prompt, a SID or a ;FW / ;PQ command makes the exchange fail.  (KNOWN FINDING: the lines set with
+  # SetMOTD are sent as they are.)
+  call fmt.Fprintf requires banner-line-cannot-be-taken-for-a-protocol-line [C01]: !hasSuffix(unbox($2[0]), ">") && !(hasPrefix(unbox($2[0]), "[") && hasSuffix(unbox($2[0]), "]")) && !hasPrefix(unbox($2[0]), ";FW") && !hasPrefix(unbox($2[0]), ";PQ")
   at return requires sid-required [C05]: $r0 == nil ==> gReadDone && len(gHS.SID) > 0 && same(s.remoteSID, gHS.SID) && same(s.remoteFW, gHS.FW)
   loop 0 invariant greeting: !gReadDone && s.master && rw != nil && SessOK(s) && len(s.localFW) >= 1
 
@@ -770,6 +779,10 @@ func fbb.(*Session).writeCompressed(s, rw, p) (err)
   call bufio.(*Writer).WriteByte#0 requires nul: $1 == 0
   call bufio.(*Writer).WriteString#1 requires offset: same($1, offset)
   call bufio.(*Writer).WriteByte#1 requires nul: $1 == 0
+  # docs/F6FBB-B2F/protocole.html: with version 1 "the 6 top bytes will be always sent, then if resume
+  # seek to asked offset" - sending the data from the offset only is what the document describes
+  # just for offset 0.  (KNOWN FINDING for offsets > 0.)
+  call bytes.NewBuffer requires resume-resends-the-six-top-bytes [C05]: p.offset == 0
   call bytes.NewBuffer requires from-offset: $0.$ref == p.compressedData.$ref && $0.$off == p.compressedData.$off + p.offset && len($0) == len(p.compressedData) - p.offset
   call bufio.(*Writer).Write#1 requires stx-n: len($1) == 2 && $1[0] == 2 && $1[1] == msgLen && 1 <= msgLen && msgLen <= 125 && msgLen <= buffer.len
   call bytes.(*Buffer).ReadByte requires data-left: buffer.len >= 1
@@ -867,6 +880,9 @@ func fbb.(*Session).handleInbound(s, rw) (quitReceived, err)
   loop 0 reads-input each iteration reads one line from the remote
   loop 1 decreases len(line) - i
   requires sess: SessOK(s) && rw != nil
+  # the statistics list exactly the transferred MIDs: a delivered message extends the Received
+  # list (and only that list) by its own MID
+  at append#1 requires received-list-extended-by-this-mid [C01]: same($0, s.trafficStats.Received) && len($1) == 1 && same($1[0], prop.mid)
   call fbb.(*Session).readCompressed requires accepted-only: $2 != nil && $2.answer == '+'
   call fbb.(*Session).readCompressed requires no-prior-error: !gFailed
   call fbb.(*Session).readCompressed set gXferOK := ite($r0 == nil, $2, nil)
@@ -953,6 +969,7 @@ func fbb.(*Session).handleOutbound(s, rw) (quitSent, err)
   props C03 C02 C01 C05
   requires sess: SessOK(s) && rw != nil
   call fmt.Fprintf requires ff-fq: $1 == "%s\r" && len($2) == 1 && ((s.remoteNoMsgs && unbox($2[0]) == "FQ") || (!s.remoteNoMsgs && unbox($2[0]) == "FF"))
+  at append#0 requires sent-list-extended-by-this-mid [C01]: same($0, s.trafficStats.Sent) && len($1) == 1 && same($1[0], mid) && !rej
   call fbb.(*Session).sendOutbound set gSentMap := $r0
   call bufio.(*Reader).Peek requires one-byte: $1 == 1
   call bufio.(*Reader).Peek set gConfirmed := $r1 == nil && len($r0) >= 1 && ($r0[0] == 'F' || $r0[0] == ';')
